@@ -70,8 +70,12 @@ class Obligations:
         model1 = r.model if r.status == 'sat' else None
         if r.status != 'unsat' and len(axioms):
             # second pass with the instantiated axioms about the uninterpreted atoms (inv, sqrt, sin/cos, ...) the goal mentions
-            ax = relevant_axioms([g] + list(assumptions), axioms)
-            terms = purify(list(assumptions) + ax + [z3.Not(g)])
+            # the goal went through z3.simplify, which may rewrite the arguments of uninterpreted atoms (angle/2 -> 1/2*angle):
+            # put assumptions and axioms through the same rewriter so that the same atom is the same term everywhere
+            sa = [z3.simplify(a) for a in assumptions]
+            sx = [_simp_cached(a) for a in axioms]
+            ax = relevant_axioms([g] + sa, sx)
+            terms = purify(sa + ax + [z3.Not(g)])
             r = s.prover.check(terms)
             if r.status == 'unknown' and model1 is not None and on_sat is not None:
                 # solver-guided replay (DESIGN 2.6): the first-pass model fixes concrete inputs; a reproduced
@@ -119,6 +123,14 @@ class Obligations:
         if r.status == 'unsat':
             s.rep.vacuous.append(s.label + name)
         return False
+
+_SIMP = {}
+def _simp_cached(a):
+    k = a.get_id()
+    r = _SIMP.get(k)
+    if r is None:
+        r = _SIMP[k] = (a, z3.simplify(a))
+    return r[1]
 
 def uf_apps(t, acc=None, seen=None):
     """ids of uninterpreted-function applications (arity>0) occurring in a term"""
